@@ -21,7 +21,7 @@ from lib import e5ref, gen, vtime, wire
 PROPERTY = "C12"
 LEVEL = "exploration"
 RULE = ("random histories (<= 20 steps, thorough <= 60) over S2F33 / S2F35 / S2F37 / S6F15 / trigger / value update with RPTID in "
-        "{1,2,3,'r'}, CEID in {1,2,3,20,999(unknown)}, VID in {1002,10,30,77(unknown)}, including duplicates inside one "
+        "{1,2,3,'r'}, CEID in {1,2,3,20,999(unknown)}, VID in {1002,10,30,11,31 (11 and 31 supplied by the application's value-request hooks),77(unknown)}, including duplicates inside one "
         "request, deletion of linked reports, unknown ids, empty lists, mixed define+delete and multi-entry requests with the "
         "offending entry first, in the middle or last; distinct by request sequence; "
         "non-trivial when at least one define and one link were accepted; plus: the cycle define / link / enable / request, delete-all, define the same RPTID with other variables, link, enable, request")
@@ -44,7 +44,7 @@ FLOORS = {"request.define.accepted": 20, "request.define.refused": 20, "request.
 RPTIDS = [1, 2, 3, "r"]
 CEIDS = [1, 2, 3, 20]
 UNKNOWN_CEID = 999
-VIDS = [1002, 10, 30]
+VIDS = [1002, 10, 30, 11, 31]
 UNKNOWN_VID = 77
 
 
@@ -100,6 +100,29 @@ class Run:
         self.dv.value = "a"
         self.h.status_variables[10] = self.sv
         self.h.data_values[30] = self.dv
+        # variables whose current value the application supplies through the overridable request hooks (what a subclass of the
+        # equipment handler does): the objects' own `.value` is a stale placeholder, the store below is the truth
+        self.store = {11: 7, 31: 70}
+        sv11 = StatusVariable(11, "sv11", "u", V.U4, use_callback=True)
+        sv11.value = 4040404
+        dv31 = DataValue(31, "dv31", V.U4, use_callback=True)
+        dv31.value = 3131313
+        self.h.status_variables[11] = sv11
+        self.h.data_values[31] = dv31
+        orig_sv, orig_dv = self.h.on_sv_value_request, self.h.on_dv_value_request
+        store = self.store
+
+        def on_sv_value_request(svid, status_variable):
+            if status_variable.svid == 11:
+                return V.U4(store[11])
+            return orig_sv(svid, status_variable)
+
+        def on_dv_value_request(dvid, data_value):
+            if data_value.dvid == 31:
+                return V.U4(store[31])
+            return orig_dv(dvid, data_value)
+        self.h.on_sv_value_request = on_sv_value_request
+        self.h.on_dv_value_request = on_dv_value_request
         self.m = Model()
         self.hist = []
         self.sysgen = gen.system_bytes(ctx.rng, 0x30000000 + ctx.rng.randrange(1 << 16) * 512, p=0.03)
@@ -152,6 +175,8 @@ class Run:
             return ("U4", [self.sv.value])
         if vid == 30:
             return ("A", self.dv.value.encode())
+        if vid in (11, 31):
+            return ("U4", [self.store[vid]])
         raise KeyError(vid)
 
     def expected_reports(self, ceid):
@@ -560,7 +585,8 @@ class Run:
         elif r < 0.90:
             self.sv.value = rng.randint(0, 2**32 - 1)
             self.dv.value = "".join(rng.choice("abcXYZ 09") for _ in range(rng.randint(0, 8)))
-            self.hist.append(f"values(sv10={self.sv.value}, dv30={self.dv.value!r})")
+            self.store[11], self.store[31] = rng.randint(0, 2**32 - 1), rng.randint(0, 2**32 - 1)
+            self.hist.append(f"values(sv10={self.sv.value}, dv30={self.dv.value!r}, hooks: sv11={self.store[11]}, dv31={self.store[31]})")
         else:
             self.probe_trigger(rng.choice(CEIDS))
         if not self.bad:
